@@ -495,6 +495,9 @@ class VarDecl:
     c_type: str
     expr: str
     global_scope: bool = False
+    #: generated declaration of a name hoisted out of a branch or loop body (it carries
+    #: the type's default value, not a value the program assigns)
+    hoisted: bool = False
 
 
 @dataclass
